@@ -218,6 +218,10 @@ func runCheck(w *World, prop string, timeoutS int, confirm bool, known *KnownFil
 		// changes" clause, not about the property: when the code now writes
 		// state the contract does not mention, the honest answer is that the
 		// contract no longer fits (undecided), not that the property is violated
+		if s.Kind == "reach" {
+			res.ToolErrors = append(res.ToolErrors, fmt.Sprintf("vacuous: %s (the assumptions on this path are contradictory: nothing proved there counts)", s.Name))
+			continue
+		}
 		if s.Kind == "frame" || s.Kind == "loop.frame" {
 			res.ToolErrors = append(res.ToolErrors, fmt.Sprintf("contract-mismatch: %s is not discharged (the function changes state outside its modifies clause, or the clause can no longer be proved)", s.Name))
 			continue
@@ -549,6 +553,12 @@ var globalAssumptions = []string{
 }
 
 var propAssumptions = map[string][]string{
+	"C18": {
+		"scope: NewMemberSet, MemberSet.Except/Slice, Agent.handleMembers/memberJoin/memberLeave/rebuildKinds (with MemberSet.ForEach and its closure inlined)/removeActivated, Agent.Receive restricted to *Members and getMembers; Cluster.Members/HasKind (request/response) and the other agent cases are outside this check",
+		"thread confinement of the agent's handlers (C02); Member and PID objects are immutable",
+		"trusted contracts: Engine.BroadcastEvent (one Broadcast entry), Member.PID (fresh PID); Engine.Send per its contract (C01/C09)",
+		"map iteration model: any not yet visited key of the current key set; the visited count equals len(m) at the end while the key set is unchanged",
+	},
 	"C08": {
 		"scope: SafeMap.New/Set/Get/Delete/Len (lock-invariant mode), Context.SpawnChild/Parent/Child, process.cleanup, process.PID; SafeMap.ForEach and Context.Children are not verified (Children is a trusted contract: fresh slice)",
 		"transitivity over the tree is induction on depth with cleanup's contract as hypothesis for each child; the child's poison context is done only after its own cleanup (C07); not machine-checked",
